@@ -10,7 +10,7 @@
 (* "Bad" events carry a descriptor that Descriptor.tla classifies as       *)
 (* malformed: the call must fail with EINVAL and change nothing.           *)
 (***************************************************************************)
-EXTENDS PropDoc, TraceCommon
+EXTENDS PropDoc, Descriptor, TraceCommon
 
 VARIABLES doc, l
 
@@ -74,6 +74,56 @@ TBad ==
        /\ Explain(FromObs(ev.obs) = doc, <<l, "Bad", "obs", doc>>)
        /\ doc' = doc
 
+(* Descriptor events: a raw character sequence handed to one API function  *)
+(* on a fixed starting tree (keys and scalar values are character          *)
+(* sequences here).  Descriptor.tla decides whether it is well formed and  *)
+(* which path it denotes; PropDoc decides the effect.                      *)
+A1 == <<"a">>
+DescDoc0 == Map((A1 :> Map(A1 :> Scalar(A1))) @@ (<<"Z">> :> List(<<Scalar(A1)>>)))
+
+DescExpect(fn, chars, start) ==      \* sequence of admissible results
+    CASE fn = "Set" ->
+           LET r == ParseSet(chars)
+           IN IF ~r.ok THEN <<Res(start, FALSE, "none", {"EINVAL"})>>
+              ELSE LET v == IF r.null THEN Null ELSE Scalar(r.value)
+                       good == DoSet(start, r.path, v)
+                   IN IF r.junk  \* text after '#': unspecified, either way
+                      THEN <<good, Res(start, FALSE, "none", {"EINVAL"})>>
+                      ELSE <<good>>
+      [] OTHER ->
+           LET r == ParseWhole(chars)
+               q == Parse(chars)
+           IN IF r.ok THEN <<Do(start, [kind |-> fn, path |-> r.path])>>
+              ELSE IF q.ok /\ fn # "SetSub"
+                   \* a valid path followed by extra tokens: malformed
+                   \* (EINVAL); if the path itself does not resolve, the
+                   \* look-up error is an equally documented answer
+                   THEN LET d == Do(start, [kind |-> fn, path |-> q.path])
+                        IN <<Res(start, FALSE, "none", {"EINVAL"})>> \o
+                           (IF ~d.ok /\ d.err # {}
+                            THEN <<Res(start, FALSE, "none", d.err)>> ELSE <<>>)
+                   ELSE <<Res(start, FALSE, "none", {"EINVAL"})>>
+
+TDesc ==
+    LET ev == TraceLog[l]
+        start == IF ev.start = "null" THEN Null ELSE DescDoc0
+        X == DescExpect(ev.fn, ev.chars, start)
+        pw == ParseWhole(ev.chars)
+        \* delete through a {} / [] suffix is not specified by the manual
+        unspecified == ev.fn = "Del" /\ pw.ok /\ Last(pw.path).k \in {"map", "list"}
+    IN /\ ev.e = "Desc"
+       /\ IF unspecified THEN TRUE
+          ELSE /\ Explain(\E i \in 1..Len(X) : (ev.ok = 1) = X[i].ok,
+                          <<l, "Desc", "ok", [i \in 1..Len(X) |-> X[i].ok]>>)
+               /\ Explain(\E i \in 1..Len(X) :
+                            LET r == X[i]
+                            IN /\ (ev.ok = 1) = r.ok
+                               /\ (r.ok /\ ev.fn \in QueryKinds) => ValMatches(ev.fn, r, ev)
+                               /\ (~r.ok /\ r.err # {}) => ev.err \in r.err
+                               /\ NoDupKeys(ev.obs) /\ FromObs(ev.obs) = r.doc,
+                          <<l, "Desc", "result", X>>)
+       /\ doc' = doc
+
 (* end of an episode: the tree was deleted with "." -- the root pointer is *)
 (* NULL and no allocation made inside the library is still live (C03)     *)
 TEnd ==
@@ -88,7 +138,7 @@ TEnd ==
 TNext ==
     /\ l <= Len(TraceLog)
     /\ l' = l + 1
-    /\ (TReset \/ TCall \/ TBad \/ TEnd)
+    /\ (TReset \/ TCall \/ TBad \/ TDesc \/ TEnd)
 
 TraceSpec == TInit /\ [][TNext]_tvars
 =============================================================================
